@@ -417,12 +417,74 @@ def _rerecord(rng, desc, req):
     return req
 
 
+# ---------------------------------------------------------------- argument-dependent resolvers
+# "Every deterministic resolver behaviour" includes resolvers whose result depends on the arguments they
+# receive. One field node is executed once per runtime object type of an abstract-typed list; every
+# implementation declares the field with its own argument defaults and extra defaulted arguments, so the
+# coerced arguments differ per runtime type. The resolvers echo their kwargs.
+def gen_args_case(rng):
+    via = rng.choice(["code", "code", "sdl"])          # python names only exist on the code-built route
+
+    def arg(name, t, default):
+        return {"name": name, "pyname": name if (via == "sdl" or rng.random() < 0.7) else "py_" + name, "type": t,
+                "default": None if default is None else {"value": default}}
+    scale_py = "scale" if (via == "sdl" or rng.random() < 0.7) else "py_scale"
+    impls = ["Circle", "Square", "Prism"][:rng.randint(2, 3)]
+    fields = {}
+    for i, t in enumerate(impls):
+        args = [{"name": "scale", "pyname": scale_py, "type": "Int",
+                 "default": rng.choice([None, {"value": rng.randint(1, 9) * 10 + i}])}]
+        for extra in rng.sample(["tag", "unit", "flag"], rng.randint(0, 2)):
+            if extra == "flag":
+                args.append(arg(extra, "Boolean", rng.choice([True, False])))
+            else:
+                args.append(arg(extra, "String", "%s-%s" % (t.lower(), extra)))
+        rng.shuffle(args)
+        fields[t] = {"name": "label", "pyname": "label", "type": "Any", "args": args, "resolver": True}
+    iface_label = {"name": "label", "pyname": "label", "type": "Any", "resolver": False,
+                   "args": [{"name": "scale", "pyname": scale_py, "type": "Int",
+                             "default": rng.choice([None, {"value": 1}])}]}
+    kind = {"name": "kind", "pyname": "kind", "type": "String", "args": [], "resolver": False}
+    desc = {"types": [{"kind": "scalar", "name": "Any", "ser": "identity"},
+                      {"kind": "interface", "name": "Shape", "fields": [iface_label, kind], "resolve_key": None}]
+            + [{"kind": "object", "name": t, "fields": [fields[t], kind], "interfaces": ["Shape"]} for t in impls]
+            + [{"kind": "union", "name": "Fig", "types": list(impls), "resolve_key": None},
+               {"kind": "object", "name": "Query", "interfaces": [], "fields": [
+                   {"name": "shapes", "pyname": "shapes", "type": ["list", "Shape"], "args": [], "resolver": False},
+                   {"name": "figs", "pyname": "figs", "type": ["list", "Fig"], "args": [], "resolver": False}]}],
+            "query": "Query", "mutation": None, "via": via}
+    mode = rng.choice(["omitted", "literal", "variable", "variable-unset", "null"])
+    variables, vd = {}, ""
+    if mode == "omitted":
+        a = ""
+    elif mode == "literal":
+        a = "(scale: %d)" % rng.randint(-3, 7)
+    elif mode == "null":
+        a = "(scale: null)"
+    else:
+        a = "(scale: $v)"
+        vd = "($v: Int)" if rng.random() < 0.6 else "($v: Int = 5)"
+        if mode == "variable":
+            variables = {"v": rng.choice([0, 4, None])}
+    text = "query Q%s { shapes { kind label%s } figs { ... on Shape { l2: label%s kind } } }" % (vd, a, a)
+    items = lambda: [{"__typename__": rng.choice(impls), "kind": "k%d" % i} for i in range(rng.randint(2, 4))]  # noqa: E731
+    root = {"shapes": items(), "figs": items()}
+    world = [[["shapes", i, "label"], ["echoall"]] for i in range(len(root["shapes"]))] + \
+            [[["figs", i, "l2"], ["echoall"]] for i in range(len(root["figs"]))]
+    return {"schema": desc, "history": [], "request": {
+        "text": text, "variables": variables, "opname": None, "root": root, "world": world,
+        "features": ["echo-args", "echo-args-" + mode]}}
+
+
 def generate(rng, tier):
     n = 300 if tier == "quick" else 3000
     cases = [gen_case(rng) for _ in range(n)]
     # streams of same-shaped text requests on one long-lived Schema (300 requests quick, 3000 thorough)
     for _ in range(2 if tier == "quick" else 10):
         cases.append(gen_stream_case(rng, 150 if tier == "quick" else 300))
+    # argument-dependent resolvers on mixed runtime types (40 quick, 400 thorough)
+    for _ in range(40 if tier == "quick" else 400):
+        cases.append(gen_args_case(rng))
     return cases
 
 
